@@ -607,8 +607,10 @@ def layout(built, mode, seed):
             return [("s", "\n" + cont)]
         if r < 0.55:
             return [("s", " "), ("a", "&"), ("s", "\n" + " " * rng.randint(5 if hash_next else 0, 8))] if rng.random() < 0.8 else [("s", " "), ("a", "&"), ("s", "\n" + cont)]
-        if r < 0.8:
+        if r < 0.8 and col < 52:
             return [("s", blanks(1, 3)), ("d", "$" + (" " if rng.random() < 0.8 else "") + rng.choice(COMMENTS)), ("s", "\n" + cont)]
+        if r < 0.8:
+            return [("s", "\n" + cont)]
         ps = [("s", "\n")]
         for _ in range(rng.randint(1, 2)):
             c = rng.choice("cC")
@@ -648,7 +650,7 @@ def layout(built, mode, seed):
                 pieces = []
             elif r < 0.75:
                 pieces = [("s", blanks(1, 3))]
-            else:
+            elif col < 52:
                 pieces = [("s", blanks(1, 3)), ("d", "$ " + rng.choice(COMMENTS))]
         elif k in ("sepb", "sepa"):
             sep = s.sep
